@@ -29,7 +29,10 @@ def make_proposal(dims, mu=0.0, sigma=2.0, seed=0, xp_name="numpy", kind="gauss"
 
         def __init__(self, dims, mu=0.0, sigma=2.0, seed=0, device=None, data_transform=None, dtype=None):
             super().__init__(dims, device=device, data_transform=data_transform)
-            self.mu, self.sigma, self.seed = float(mu), float(sigma), seed
+            # scalars, or one value per coordinate
+            self.mu = np.broadcast_to(np.asarray(mu, dtype=float), (dims,)).copy() if isinstance(mu, (list, tuple)) else float(mu)
+            self.sigma = np.broadcast_to(np.asarray(sigma, dtype=float), (dims,)).copy() if isinstance(sigma, (list, tuple)) else float(sigma)
+            self.seed = seed
             self.g = np.random.default_rng(seed)
             self.n_log_prob = 0
 
@@ -38,8 +41,8 @@ def make_proposal(dims, mu=0.0, sigma=2.0, seed=0, xp_name="numpy", kind="gauss"
             x = x.reshape(-1, self.dims) if x.ndim != 2 else x
             if kind == "uniform":      # compact support: log q = -inf outside the box mu +- sigma
                 inb = np.all(np.abs(x - self.mu) <= self.sigma, axis=-1)
-                return np.where(inb, -self.dims * math.log(2 * self.sigma), -np.inf)
-            return (-0.5 * ((x - self.mu) / self.sigma) ** 2 - math.log(self.sigma) - 0.5 * math.log(2 * math.pi)).sum(-1)
+                return np.where(inb, -float(np.sum(np.log(2 * np.broadcast_to(self.sigma, (self.dims,))))), -np.inf)
+            return (-0.5 * ((x - self.mu) / self.sigma) ** 2 - np.log(self.sigma) - 0.5 * math.log(2 * math.pi)).sum(-1)
 
         def log_prob(self, x):
             self.n_log_prob += 1
@@ -83,7 +86,10 @@ class Target:
     `fault_prior_at`-th prior call when set."""
 
     def __init__(self, dims, center=1.0, width=0.5, half=10.0, nan_outside=False, peaked=None, like_cut=None, offset=0.0):
-        self.dims, self.center, self.width, self.half = dims, center, width, half
+        # `center` and `half` may be given per coordinate (a box with different sides, a mode off the diagonal)
+        self.dims, self.width = dims, width
+        self.center = np.asarray(center, dtype=float) if isinstance(center, (list, tuple)) else center
+        self.half = np.asarray(half, dtype=float) if isinstance(half, (list, tuple)) else half
         self.offset = float(offset)   # constant added to the log-likelihood (an unnormalised likelihood: log L ~ -1e5 or +3e3)
         self.like_cut = like_cut      # log-likelihood is -inf where x[0] < like_cut (zero-weight particles)
         self.nan_outside = nan_outside
@@ -104,7 +110,7 @@ class Target:
     def prior_np(self, x):
         x = self._np(x)
         inb = np.all(np.abs(x) <= self.half, axis=-1)
-        return np.where(inb, -self.dims * math.log(2 * self.half), -np.inf)
+        return np.where(inb, -float(np.sum(np.log(2 * np.broadcast_to(np.asarray(self.half, dtype=float), (self.dims,))))), -np.inf)
 
     def like_np(self, x):
         x = self._np(x)
@@ -208,7 +214,7 @@ def make_sampler(cfg: dict, target: Target, rng=None):
         from aspire.transforms import CompositeTransform
 
         pc = dict(cfg["precond"])
-        bounds = {p: [-cfg["half"], cfg["half"]] for p in params}
+        bounds = {p: [-h_, h_] for p, h_ in zip(params, np.broadcast_to(np.asarray(cfg["half"], dtype=float), (cfg["dims"],)).tolist())}
         transform = CompositeTransform(parameters=params, prior_bounds=bounds, xp=xp, dtype=dt,
                                        periodic_parameters=[params[i] for i in pc.pop("periodic", [])], **pc)
     if cfg["sampler"] in ("minipcn_smc", "smc"):
@@ -443,7 +449,7 @@ def run_sampler(cfg: dict, fault_at=None):
         from aspire.transforms import CompositeTransform
 
         pc = dict(cfg["precond"])
-        bounds = {p: [-cfg["half"], cfg["half"]] for p in params}
+        bounds = {p: [-h_, h_] for p, h_ in zip(params, np.broadcast_to(np.asarray(cfg["half"], dtype=float), (cfg["dims"],)).tolist())}
         transform = CompositeTransform(parameters=params, prior_bounds=bounds, xp=xp, dtype=dt,
                                        periodic_parameters=[params[i] for i in pc.pop("periodic", [])], **pc)
     common = dict(log_likelihood=target.log_likelihood, log_prior=target.log_prior, dims=cfg["dims"], prior_flow=flow, xp=xp,
